@@ -130,9 +130,11 @@ def enumerate_cases(tier):
             for tol in (1e-6,):
                 idx += 1
                 rnd = random.Random(seed * 5003 + idx)
-                base = t0 + round(rnd.uniform(0.1, 0.9), 3)
+                # around a shallow node boundary of the dyadic tree (where neighbouring leaves belong to distant branches) or
+                # anywhere
+                base = t0 + rnd.choice([0.5, 0.25, round(rnd.uniform(0.1, 0.9), 3)])
                 raws = []
-                for _ in range(120):
+                for _ in range(300):
                     a_ = round(base + rnd.randrange(0, 200) * 1e-6, 6)
                     raws.append(["raw", a_, round(a_ + rnd.randrange(1, 12) * 1e-6, 6)])
                 shuffled = list(raws)
@@ -141,7 +143,7 @@ def enumerate_cases(tier):
                        "shape": [16], "levy": levy, "entropy": rnd.randrange(2 ** 31), "dtype": "float64",
                        "cache_size": 45, "dt": None, "tol": tol, "halfway": True, "user_W": False, "user_H": False,
                        "grid": 1000}
-                yield {"kind": "dyadic", "cfg": cfg, "ops_a": raws, "ops_b": shuffled, "targets": raws[::3], "cache_b": 45}
+                yield {"kind": "dyadic", "cfg": cfg, "ops_a": raws, "ops_b": shuffled, "targets": raws, "cache_b": 45}
 
 
 def _eq(x, y):
@@ -190,10 +192,21 @@ def run_case(case):
         cfg_b["cache_size"] = case["cache_b"] if cfg["wrapper"] == "interval" else cfg["cache_size"]
         bm1, i1, _ = history.build(cfg, torchsde, torch)
         bm2, i2, _ = history.build(cfg_b, torchsde, torch)
+        seen_a, seen_b = {}, {}
         for (a, b) in qa:
-            bm1(a, b)
+            seen_a.setdefault((a, b), bm1(a, b))
         for (a, b) in qb:
-            bm2(a, b)
+            seen_b.setdefault((a, b), bm2(a, b))
+        # an interval asked in both histories (at different moments, after different predecessors) has one value
+        for q_, r1 in seen_a.items():
+            if q_ in seen_b:
+                checks += 1
+                for name, x, y in zip("WUA", r1, seen_b[q_]):
+                    if not _eq(x, y):
+                        return Result(nontrivial=True, checks=checks, fail=Fail(
+                            f"dyadic_history_dependence:{name}",
+                            f"dyadic mode: {name}{q_} asked within two different histories of the same object configuration "
+                            f"gave two values", sig))
         from .. import brownian_tools
         multi = False
         for (a, b) in targets:
